@@ -95,7 +95,7 @@ macro_rules! each_feature_type {
 		each_codec_type!(@list $f, $args;
 			SNamed, STuple, SUnit, SCompact, SSkip, SSingleCompact, SSingle, SEncodedAs, SGeneric<u16>, SGeneric<String>,
 			STransp, Box<STransp>, [STransp; 3], Box<STranspBig>, Vec<STransp>, CA, Compact<CA>, SHasCompact,
-			EPlain, EDisc, EIdx, ESkip, EBoth, STranspZ, Box<STranspZ>, [STranspZ; 3], Rc<STranspZ>, (Box<STranspZ>, u16), STranspC, Box<STranspC>, [STranspC; 3], Rc<STranspC>, (u8, Box<STransp>), Vec<EPlain>, Option<EIdx>, [ESkip; 2], Box<EPlain>,
+			EPlain, EDisc, EIdx, ESkip, EBoth, EV1, Box<EV1>, Rc<EV1>, (Box<EV1>, u8), Vec<Box<EV1>>, [Box<EV1>; 2], STranspZ, Box<STranspZ>, [STranspZ; 3], Rc<STranspZ>, (Box<STranspZ>, u16), STranspC, Box<STranspC>, [STranspC; 3], Rc<STranspC>, (u8, Box<STransp>), Vec<EPlain>, Option<EIdx>, [ESkip; 2], Box<EPlain>,
 			SMelGeneric<u32>, SMelCA, EMelCompact, RV, RB, Tree, RM, RL, Vec<SNamed>, Vec<SUnit>, BTreeMap<u8, EPlain>, Vec<SCompact>
 		);
 		#[cfg(feature = "bit-vec")]
@@ -251,6 +251,11 @@ fn main() {
 				each_seq_type!(rt_seq, (&mut ctx));
 				drive_rt_exhausted(&mut ctx);
 			},
+			"C20" => {
+				each_codec_type!(enc_one, (&mut ctx));
+				ctx.prop = "C03".into();
+				each_codec_type!(dec_one, (&mut ctx));
+			},
 			"C05" => {
 				#[cfg(feature = "derive")]
 				{
@@ -315,7 +320,18 @@ fn main() {
 			},
 			"C04" => { drivers::compact::drive(&mut ctx, &part); },
 			"C18" => { each_codec_type!(dec_one, (&mut ctx)); each_len_type!(&mut ctx); },
-			"C03" | "C08" | "C11" | "C12" | "C14" | "C19" => { each_codec_type!(dec_one, (&mut ctx)); },
+			"C11" => {
+				each_codec_type!(dec_one, (&mut ctx));
+				#[cfg(feature = "derive")]
+				{
+					// one more level: RV = count 1 then the inner vector; RB = Some(Box(..)); Tree = Node(left = .., right = Leaf)
+					drive_deep::<RV>(&mut ctx, &[4], &[0]);
+					drive_deep::<RB>(&mut ctx, &[1], &[0]);
+					drive_deep::<RL>(&mut ctx, &[4], &[0]);
+					drive_deep::<RM>(&mut ctx, &[4, 7], &[0]);
+				}
+			},
+			"C03" | "C08" | "C12" | "C14" | "C19" => { each_codec_type!(dec_one, (&mut ctx)); },
 			_ => { eprintln!("unknown prop {}", prop); std::process::exit(2) },
 		},
 		_ => { eprintln!("usage: vharness gen --prop ID --tier T --seed N --out FILE"); std::process::exit(2) },
